@@ -388,7 +388,9 @@ func TestBoundaryAlignment(t *testing.T) {
 		"rawcbor": func(e *zerolog.Event) *zerolog.Event {
 			return e.RawCBOR("v", []byte{0x83, 1, 2, 0x62, 'h', 'i', 0xf6, 0xfb, 0x40, 9, 0x21, 0xfb, 0x54, 0x44, 0x2d, 0x18})
 		},
-		"ints": func(e *zerolog.Event) *zerolog.Event { return e.Ints("v", []int{1, -2, 300, -70000, 1 << 40}) },
+		"ints": func(e *zerolog.Event) *zerolog.Event {
+			return e.Ints("v", []int{1, -2, 300, -70000, int(int64(1) << 40 >> (64 - strconv.IntSize))})
+		},
 		"strs": func(e *zerolog.Event) *zerolog.Event { return e.Strs("v", []string{"a", "", "ccc", "é"}) },
 		"dict": func(e *zerolog.Event) *zerolog.Event {
 			return e.Dict("v", zerolog.Dict().Str("a", "b").Int("n", 7).Bool("t", true))
